@@ -486,10 +486,13 @@ package sql
 //@   modifies nothing
 //@   ensures ch < 0 ==> !result
 
+// tokText(s): the text of the most recently scanned token (ghost; set by Scan, read any number of times by TokenText)
+//@ ghost var tokText(s *Scanner) string
 //@ func (s *Scanner) TokenText() string
 //@   trusted
 //@   requires s != nil
 //@   modifies s.tokEnd, s.tokPos
+//@   ensures result == tokText(s)
 
 //@ func (s *Scanner) Peek() rune
 //@   props C09
@@ -501,7 +504,7 @@ package sql
 //@ func (s *Scanner) Next() rune
 //@   props C09
 //@   requires scOK(s)
-//@   modifies fields(s), srem(s)
+//@   modifies fields(s), srem(s), tokText(s)
 //@   ensures scOK(s) && scMeasure(s) <= old(scMeasure(s))
 
 //@ func (s *Scanner) scanIdentifier() rune
@@ -603,7 +606,7 @@ package sql
 //@ func (s *Scanner) Scan() rune
 //@   props C09
 //@   requires scOK(s)
-//@   modifies fields(s), srem(s)
+//@   modifies fields(s), srem(s), tokText(s)
 //@   ensures[ok] scOK(s) && scMeasure(s) <= old(scMeasure(s))
 //@   ensures[progress] result != -1 ==> scMeasure(s) < old(scMeasure(s))
 //@   loop 1 invariant scOK(s) && ch >= -1 && 2*srem(s) + chFlag(ch) <= old(scMeasure(s))
@@ -619,15 +622,19 @@ package sql
 //@ func (ts *tokenScanner) Next() bool
 //@   props C09
 //@   requires tsOK(ts)
-//@   modifies fields(ts), fields(&ts.s), srem(&ts.s)
+//@   modifies fields(ts), fields(&ts.s), srem(&ts.s), tokText(&ts.s)
 //@   ensures[ok] tsOK(ts) && tsMeasure(ts) <= old(tsMeasure(ts))
 //@   ensures[progress] result ==> tsMeasure(ts) < old(tsMeasure(ts))
 
 //@ func (ts *tokenScanner) Cur() Token
 //@   props C08 C09 C10
 //@   requires tsOK(ts)
-//@   modifies fields(ts), fields(&ts.s), srem(&ts.s)
+//@   modifies fields(ts), fields(&ts.s), srem(&ts.s), tokText(&ts.s)
 //@   ensures[ok; C09] tsOK(ts) && tsMeasure(ts) <= old(tsMeasure(ts))
+//@   ensures[ident.kw; C10] old(ts.cur) == Ident ==> result.Text == old(tokText(&ts.s)) &&
+//@              (has(keywords, strUpper(result.Text)) ==> result.Type == keywords[strUpper(result.Text)]) &&
+//@              (!has(keywords, strUpper(result.Text)) ==> result.Type == IDENT)
+//@   ensures[string.lit; C10] old(ts.cur) == String && !has(keywords, strUpper(old(tokText(&ts.s)))) ==> result.Type == STR
 //@   ensures[class.delim; C10] old(ts.cur) == DelimIdent ==> result.Type == IDENT
 //@   ensures[class.int; C10] old(ts.cur) == Int ==> result.Type == INT
 //@   ensures[class.eof; C10] old(ts.cur) == EOF ==> result.Type == EOF
